@@ -14,11 +14,11 @@ def NoLru (P : Prog) : Prop := ∀ q, P.kind q ≠ .lru
 theorem recordUseFor_noLru {P} (hK : NoLru P) (s : State) (q : Nat) : recordUseFor P s q = s := by
   simp [recordUseFor, hK q]
 
-theorem mcaStep_eq_refresh (fe : FetchFn) (mc : McaFn) (P : Prog) (s : State) (r rev : Nat) (m : Memo) (v : Nat)
-    (hm : s.memos r = some m) (hv : m.value = some v) :
+theorem mcaStep_eq_refresh (fe : FetchFn) (mc : McaFn) (P : Prog) (hK : NoLru P) (s : State) (r rev : Nat)
+    (m : Memo) (v : Nat) (hm : s.memos r = some m) (hv : m.value = some v) :
     mcaStep fe mc P s r rev =
       ((refreshStep fe mc P s r).1, decide ((refreshStep fe mc P s r).2.ca > rev)) := by
-  simp only [mcaStep, refreshStep, hm, hv]
+  simp only [mcaStep, refreshStep, hm, hv, recordUseFor_noLru hK]
   split
   · rfl
   · split
@@ -64,7 +64,7 @@ theorem eng_ok {P} (hP : Wf P) (hK : NoLru P) : ∀ r, FetchSpec P r (eng P r).1
         subst this
         simp only [Nat.lt_irrefl, if_false, if_true]
         obtain ⟨m0, hm0⟩ := hex
-        rw [mcaStep_eq_refresh _ _ P s q rev m0 m0.gval hm0 (hI.memo q m0 hm0).hasval]
+        rw [mcaStep_eq_refresh _ _ P hK s q rev m0 m0.gval hm0 (hI.memo q m0 hm0).hasval]
         obtain ⟨b1, b2, _, m, b4, b5, _, b7, _⟩ := hstep s hI
         exact ⟨b1, b2, m, b4, b5, by rw [b7]⟩
 
